@@ -42,7 +42,11 @@ struct Obs {
 trait H: Digest + digest::FixedOutput + digest::Reset + digest::Update + digest::DynDigest + Clone + Default + 'static {
     const BS: usize;
     const LAZY: bool;
+    /// counter values, in compressed blocks, at which a counter word of this family carries
+    const BOUNDARIES: &'static [u128];
     fn obs(&self) -> Obs;
+    /// hook H2: keep the chaining value, empty the buffer, set the counters as after `blocks` blocks
+    fn enter(&mut self, blocks: u128);
 }
 
 macro_rules! impl_blake {
@@ -63,6 +67,14 @@ macro_rules! impl_blake {
                 state.extend_from_slice(&t.1.to_le_bytes());
                 Obs { pos, compressed: bits / 8, content: content[..pos].to_vec(), state }
             }
+            // 2^32 resp. 2^64 bits: the carry from t.0 into t.1
+            const BOUNDARIES: &'static [u128] = &[(1u128 << $w) / ($bs * 8)];
+            fn enter(&mut self, blocks: u128) {
+                let (h, _, _, _) = self.verif_get_state();
+                let bits = blocks * $bs * 8;
+                let mask = (1u128 << $w) - 1;
+                self.verif_set_state(h, ((bits & mask) as _, ((bits >> $w) & mask) as _), &[]);
+            }
         }
     };
 }
@@ -81,6 +93,12 @@ macro_rules! impl_groestl {
                 let mut state = cv.to_vec();
                 state.extend_from_slice(&bc.to_le_bytes());
                 Obs { pos, compressed: bc as u128 * $bs, content: content[..pos].to_vec(), state }
+            }
+            // the block count needs a second, third, fifth byte
+            const BOUNDARIES: &'static [u128] = &[1 << 8, 1 << 16, 1 << 32];
+            fn enter(&mut self, blocks: u128) {
+                let (cv, _, _, _) = self.verif_get_state();
+                self.verif_set_state(cv, blocks as u64, &[]);
             }
         }
     };
@@ -107,6 +125,12 @@ macro_rules! impl_jh {
                     state,
                 }
             }
+            // 2^32 bits and 2^32 bytes
+            const BOUNDARIES: &'static [u128] = &[1 << 23, 1 << 26];
+            fn enter(&mut self, blocks: u128) {
+                let (cv, _, _, _) = self.verif_get_state();
+                self.verif_set_state(cv, (blocks * 64) as usize, &[]);
+            }
         }
     };
 }
@@ -129,6 +153,13 @@ macro_rules! impl_skein {
                 state.extend_from_slice(&t.0.to_le_bytes());
                 state.extend_from_slice(&t.1.to_le_bytes());
                 Obs { pos, compressed: t.0 as u128, content: content[..pos].to_vec(), state }
+            }
+            // 2^32 bytes in the tweak position
+            const BOUNDARIES: &'static [u128] = &[(1u128 << 32) / $bs];
+            fn enter(&mut self, blocks: u128) {
+                let (x, _, _, _) = self.verif_get_state();
+                // message type, FIRST cleared (blocks > 0)
+                self.verif_set_state(&x, ((blocks * $bs) as u64, 48u64 << 56), &[]);
             }
         }
     };
@@ -724,6 +755,64 @@ fn do_type<T: H>(name: &str, rng: &mut Rng, count: usize, maxops: usize, acc: &m
     }
 }
 
+/// C08 next to a counter carry: from a state entered `k` blocks before a boundary of the
+/// family (hook H2; the chaining value is the initial one), absorb a tail that crosses the
+/// boundary under several partitions into update calls; every partition must give the digest
+/// of the single-call run. Evaluated on the implementation only.
+fn boundary_partitions<T: H>(name: &str, rng: &mut Rng, failures: &mut Vec<String>, runs: &mut u64) {
+    let bs = T::BS;
+    for &b in T::BOUNDARIES {
+        for k in 1..=2u128 {
+            for &r in &[0usize, 1, bs - 1] {
+                let tail = content(rng, (k as usize + 2) * bs + r);
+                let run = |cuts: &[usize]| -> Option<Vec<u8>> {
+                    catch_unwind(AssertUnwindSafe(|| {
+                        let mut h = T::default();
+                        h.enter(b - k);
+                        let mut at = 0usize;
+                        for &c in cuts {
+                            let c = c.min(tail.len());
+                            if c > at {
+                                Digest::update(&mut h, &tail[at..c]);
+                                at = c;
+                            }
+                        }
+                        Digest::update(&mut h, &tail[at..]);
+                        Digest::finalize(h).to_vec()
+                    }))
+                    .ok()
+                };
+                let whole = run(&[]);
+                let kb = k as usize * bs;
+                let per_block: Vec<usize> = (1..=(k as usize + 2)).map(|i| i * bs).collect();
+                let r1 = 1 + rng.below(tail.len() as u64 - 1) as usize;
+                let r2 = 1 + rng.below(tail.len() as u64 - 1) as usize;
+                let parts: Vec<Vec<usize>> = vec![
+                    per_block,
+                    vec![kb],                 // exactly up to the boundary, then the rest
+                    vec![kb - 1],             // one byte short of it
+                    vec![kb - bs],            // the block that carries together with later blocks
+                    vec![1, kb + bs],
+                    vec![r1.min(r2), r1.max(r2)],
+                ];
+                for cuts in parts.iter() {
+                    *runs += 1;
+                    let d = run(cuts);
+                    if d != whole {
+                        if failures.len() < 6 {
+                            failures.push(format!(
+                                "{{\"failure\":{},\"case\":{{\"type\":{},\"entered_blocks\":\"{}\",\"boundary_blocks\":\"{}\",\"tail_len\":{},\"cuts\":{:?},\"tail\":{}}}}}",
+                                jstr(&format!("{}: from a state {} block(s) before counter boundary {} the digest of a {}-byte tail depends on the partition into update calls (cuts {:?} vs one call){}", name, k, b, tail.len(), cuts, if d.is_none() || whole.is_none() { " (one of them panicked)" } else { "" })),
+                                jstr(name), b - k, b, tail.len(), cuts, jstr(&hex(&tail))
+                            ));
+                        }
+                    }
+                }
+            }
+        }
+    }
+}
+
 fn main() {
     std::panic::set_hook(Box::new(|_| {}));
     let argv: Vec<String> = std::env::args().collect();
@@ -755,12 +844,15 @@ fn main() {
         maxmsg: 0,
         samples: vec![],
     };
+    let mut bfail: Vec<String> = Vec::new();
+    let mut bruns = 0u64;
     macro_rules! go {
         ($name:expr, $t:ty) => {
             if only.is_empty() || only == $name {
                 // every type gets its own stream derived from the one seed
                 let mut r = Rng::new(rng.u64());
                 do_type::<$t>($name, &mut r, count, maxops, &mut acc);
+                boundary_partitions::<$t>($name, &mut r, &mut bfail, &mut bruns);
             } else {
                 let _ = rng.u64();
             }
@@ -798,13 +890,14 @@ fn main() {
     );
     std::fs::write(format!("{}/cases.json", out), format!("[{}]", acc.json.join(",\n"))).unwrap();
 
+    acc.direct.extend(bfail.into_iter());
     let kv = |m: &BTreeMap<&'static str, u64>| -> String {
         let v: Vec<String> = m.iter().map(|(k, v)| format!("{}:{}", jstr(k), v)).collect();
         format!("{{{}}}", v.join(","))
     };
     let pt: Vec<String> = acc.per_type.iter().map(|(k, v)| format!("{}:{}", jstr(k), v)).collect();
     println!(
-        "{{\"evaluations\":{},\"distinct_nontrivial\":{},\"direct_failures\":[{}],\"samples\":[{}],\"histories_per_type\":{{{}}},\"streams\":{},\"op_mix\":{},\"random_piece_classes\":{},\"digests_checked_against_one_shot\":{},\"state_differences_without_digest_difference\":{},\"longest_message_bytes\":{},\"max_ops_random\":{}}}",
+        "{{\"evaluations\":{},\"distinct_nontrivial\":{},\"direct_failures\":[{}],\"samples\":[{}],\"histories_per_type\":{{{}}},\"streams\":{},\"op_mix\":{},\"random_piece_classes\":{},\"digests_checked_against_one_shot\":{},\"state_differences_without_digest_difference\":{},\"longest_message_bytes\":{},\"max_ops_random\":{},\"counter_boundary_partition_runs\":{}}}",
         acc.coq.len(),
         acc.distinct_nontrivial,
         acc.direct.join(","),
@@ -816,6 +909,7 @@ fn main() {
         acc.digests,
         acc.state_only,
         acc.maxmsg,
-        maxops
+        maxops,
+        bruns
     );
 }
